@@ -15,7 +15,7 @@ JAVA_CP = "/opt/veriftools/tla/tla2tools.jar:/opt/veriftools/tla/CommunityModule
 
 DEFAULT_CONSTS = {
     "MaxCrashes": 0, "MaxWithhold": 0, "MaxSweeps": 0, "MaxCancels": 0, "MaxSignals": 0, "MaxEarly": 0, "MaxPauses": 0, "MaxRestarts": 0, "MaxRegions": 0,
-    "MaxStageWait": 3, "MaxAttempts": 10, "AnyOrder": "TRUE", "EnvBetween": "FALSE", "FixRetry": "FALSE", "TrustNegative": "FALSE",
+    "MaxStageWait": 3, "MaxAttempts": 10, "AnyOrder": "TRUE", "EnvBetween": "FALSE", "FixRetry": "FALSE", "TrustNegative": "FALSE", "SplitSweep": "FALSE",
 }
 
 
